@@ -145,6 +145,34 @@ theorem processed_answers_request (s s' : Signer) (m : Signed ReqBody) (ovr : Op
   obtain ⟨_, a, b, _, c, d, _⟩ := processSignerRequest_ok s s' m ovr r h
   exact ⟨a, b, c, d⟩
 
+/-- Every request forwarded to the signer gets exactly one answer (previous theorem: the answers'
+children and keys are the requests', in order) and the answer is of the request's kind – a
+certificate for an issuance request, a revocation confirmation for a revocation request – never
+the `Error` placeholder; if any request cannot be honoured the whole signer request is refused
+(`request_processed_iff_signed_by_proxy`). -/
+theorem signer_answers_in_kind (s s' : Signer) (m : Signed ReqBody) (ovr : Option Nat)
+    (r : Signed RespBody) (h : processSignerRequest s m ovr = .ok (s', r)) :
+    ∀ o ∈ r.body.entries, ∃ e ∈ m.clear.entries,
+      e.1 = o.1 ∧ e.2.matchesResponse o.2 = true ∧ o.2 ≠ .error := by
+  unfold processSignerRequest at h
+  by_cases hv : m.validFor s.proxyKey = true
+  · simp only [hv, Bool.not_true, Bool.false_eq_true, if_false] at h
+    cases ho : ovr.all fun v => decide (s.objects.number < v) with
+    | false => simp [ho] at h
+    | true =>
+      simp only [ho, Bool.not_true, Bool.false_eq_true, if_false] at h
+      cases ha : signAll m.clear.resources { objects := s.objects, serial := s.nextSerial } m.clear.entries with
+      | error x => simp [ha] at h
+      | ok a =>
+        simp only [ha, Except.ok.injEq, Prod.mk.injEq] at h
+        obtain ⟨_, h2⟩ := h
+        subst h2
+        intro o ho'
+        rcases signAll_kinds _ _ _ _ ha o ho' with h3 | h3
+        · cases h3
+        · exact h3
+  · simp [hv] at h
+
 example :
     let s : Signer := Signer.init 2 1 3 none
     let b : ReqBody := { nonce := 7, entries := [(("a", 10), { kind := .issue, key := 10 })],
@@ -321,6 +349,59 @@ theorem no_request_and_response (k : Key) (ops : List Op) (s : Sys)
     ahas s.proxy.openResp ck = false :=
   (inv_run _ _ ops (inv_init k) h).disj ck hr
 
+/-- Several children, several outstanding requests folded into one signer request: when the proxy
+accepts the response – at any point of any admissible history – the response answers pairwise
+different (child, key) pairs, each of which had a request waiting and no response waiting; after
+it each entry is *the* waiting response of its child and key, with the signer's value; the
+answered requests are gone; all other children's and keys' requests and responses are untouched
+(in particular requests that arrived while the signer request was open keep waiting). -/
+theorem exactly_once_batch (k : Key) (ops : List Op) (s : Sys) (m : Signed RespBody) (evs : List Ev)
+    (h : run (Sys.init k) ops = some s) (ha : admissible s (.respond m) = true)
+    (hp : process s.proxy (.processSignerResponse m) = .ok evs) :
+    (keysOf m.clear.entries).Nodup ∧
+    (∀ ck ∈ keysOf m.clear.entries, ahas s.proxy.openReq ck = true ∧
+        ahas s.proxy.openResp ck = false ∧ s.proxy.known ck.1 = true) ∧
+    (∀ e ∈ m.clear.entries, aget (step s (.respond m)).proxy.openResp e.1 = some e.2) ∧
+    (∀ ck, ahas (step s (.respond m)).proxy.openReq ck = true ↔
+        ahas s.proxy.openReq ck = true ∧ ck ∉ keysOf m.clear.entries) ∧
+    (∀ ck, ck ∉ keysOf m.clear.entries →
+        aget (step s (.respond m)).proxy.openResp ck = aget s.proxy.openResp ck) :=
+  respond_batch s m evs (inv_run _ _ ops (inv_init k) h) ha hp
+
+/-- Non-vacuity of the batch theorem: children `a` and `b`; `a` has two requests outstanding (a new
+key and a revocation of its old one), `b` one; all three are folded into one signer request and
+answered by one response; `c`'s request arrives while the signer request is open and keeps
+waiting; every child then collects exactly its own answers, once. -/
+example :
+    let issue (k : Key) : Req := { kind := .issue, key := k }
+    let revoke (k : Key) : Req := { kind := .revoke, key := k }
+    let sg (b : ReqBody) : Signed ReqBody := { signer := 1, body := b, clear := b }
+    let r0 : ReqBody := { nonce := 5, entries := [(("a", 10), issue 10)],
+                          resources := [("c", [3]), ("b", [2]), ("a", [1])] }
+    let p0 : RespBody := { nonce := 5, objects := { number := 2, issued := [(10, 1)] },
+                           entries := [(("a", 10), .issued 1)] }
+    let r1 : ReqBody := { nonce := 7, resources := [("c", [3]), ("b", [2]), ("a", [1])],
+                          entries := [(("b", 20), issue 20), (("a", 10), revoke 10), (("a", 11), issue 11)] }
+    let p1 : RespBody := { nonce := 7, objects := { number := 3, issued := [(11, 3), (20, 2)], revoked := [1] },
+                           entries := [(("b", 20), .issued 2), (("a", 10), .revoked), (("a", 11), .issued 3)] }
+    let ops : List Op := [
+      .signerInit 2 1 3 none, .addSigner 2, .addChild "a" [1], .addChild "b" [2], .addChild "c" [3],
+      .childRequest "a" (issue 10), .makeRequest 5, .getRequest, .sign 2 (sg r0) none,
+      .respond { signer := 2, body := p0, clear := p0 }, .childRequest "a" (issue 10),
+      -- three outstanding requests of two children
+      .childRequest "a" (issue 11), .childRequest "a" (revoke 10), .childRequest "b" (issue 20),
+      .makeRequest 7, .getRequest,
+      .childRequest "c" (issue 30),                -- arrives while the signer request is open
+      .sign 2 (sg r1) none,
+      .respond { signer := 2, body := p1, clear := p1 },
+      .childRequest "b" (issue 20), .childRequest "a" (revoke 10), .childRequest "a" (issue 11),
+      .childRequest "b" (issue 20)]                -- asked again: a new request
+    (run (Sys.init 1) ops).map (fun s =>
+      (s.given.map (·.1), keysOf s.proxy.openResp, keysOf s.proxy.openReq, s.proxy.number)) =
+    some ([("a", 11), ("a", 10), ("b", 20), ("a", 10)], [], [("b", 20), ("c", 30)], some 3) := by
+  intro issue revoke sg r0 p0 r1 p1 ops
+  decide
+
 /-- Non-vacuity: two children, a request added while the signer request is open, the request
 fetched twice, both signed, responses delivered out of order, replays, a forged response.  The
 run is admissible; `a`'s request is answered once and handed over once, its repetition is a new
@@ -392,7 +473,7 @@ theorem numInv_runWith (s s' : Sys) (ops : List Op) (hi : Inv s) (hn : NumInv s)
     split at hr
     · rename_i hab
       simp only [Bool.and_eq_true] at hab
-      obtain ⟨a, b⟩ := ih (step s o) (inv_step s o hi hab.1) (numInv_step s o hi hn hab.1 hab.2) hr
+      obtain ⟨a, b⟩ := ih (step s o) (inv_step s o hi hab.1) (numInv_step s o hi hn hab.1 (benign_regular s o hab.2)) hr
       refine ⟨a, ?_⟩
       have c := number_step s o hi hn hab.1 hab.2
       revert b c
@@ -428,6 +509,55 @@ theorem ta_numbers_increase_on_accept (k : Key) (ops : List Op) (s : Sys) (m : S
   have hi := inv_runWith benign _ _ ops (inv_init k) h
   have hn := (numInv_runWith _ _ ops (inv_init k) (numInv_init k) h).1
   exact number_accept s m evs hi hn ha hp
+
+/-- **Arbitrary histories.**  Take any history of the proxy, any number of signers (initialised,
+re-initialised, belonging to other proxies), the children and the network adversary (replay,
+re-order, stale, cross-wired, forged, altered) – `regular` only fixes that the proxy's first
+association happens while no signer request is open.  Then at every step the published number
+stays or rises, **or** the step is the recorded exception F-C15-2 (`lowReassociation`: the
+operator re-associates the proxy with a signer whose manifest number is behind).  The guard is
+explicit, nothing else is excluded. -/
+theorem ta_numbers_decrease_only_by_reinit (k : Key) (ops : List Op) (s : Sys) (o : Op)
+    (h : runWith regular (Sys.init k) ops = some s)
+    (ha : admissible s o = true) (hr : regular s o = true) :
+    numLe s.proxy.number (step s o).proxy.number = true ∨ lowReassociation s o = true := by
+  have hi := inv_runWith' regular _ _ ops (inv_init k) h
+  have hn := numInv_regular _ _ ops (inv_init k) (numInv_init k) h
+  exact number_step_or s o hi hn ha hr
+
+/-- Outside the guard the statement is false: whenever the exception is taken and the update is
+accepted (same TA key, no request open), the published number drops strictly – in every state. -/
+theorem reinit_behind_decreases (s : Sys) (id : Key) (t : Signer) (evs : List Ev)
+    (ht : aget s.signers id = some t) (hl : lowReassociation s (.updateSigner id) = true)
+    (hp : process s.proxy (.updateSigner t.info) = .ok evs) :
+    numLt (step s (.updateSigner id)).proxy.number s.proxy.number = true :=
+  low_reassociation_decreases s id t evs ht hl hp
+
+/-- Non-vacuity: a regular history with a cross-wired signer (6, initialised for proxy 9: refuses
+proxy 1's request), a replayed request, a stale response, and a signer initialised again with the
+same TA key and the default number; in the state reached the guard is true for `updateSigner 4`
+(the exception, admissible and regular), false for every other step shown. -/
+example :
+    let b (n : Nat) : ReqBody := { nonce := n }
+    let sg (n : Nat) : Signed ReqBody := { signer := 1, body := b n, clear := b n }
+    let rs (id n num : Nat) : Signed RespBody :=
+      { signer := id, body := { nonce := n, objects := { number := num } },
+        clear := { nonce := n, objects := { number := num } } }
+    (runWith regular (Sys.init 1) [
+        .signerInit 2 1 3 (some 5), .addSigner 2, .signerInit 6 9 8 none,
+        .makeRequest 7, .getRequest, .sign 6 (sg 7) none, .sign 2 (sg 7) none, .sign 2 (sg 7) none,
+        .respond (rs 2 7 7), .respond (rs 2 7 6),
+        .signerInit 4 1 3 none]).map
+      (fun s => (s.proxy.number, s.resps.length,
+        [lowReassociation s (.updateSigner 4), admissible s (.updateSigner 4), regular s (.updateSigner 4),
+         lowReassociation s (.updateSigner 2), lowReassociation s (.makeRequest 8)],
+        (step s (.updateSigner 4)).proxy.number)) =
+    some (some 7, 2, [true, true, true, false, false], some 1) := by decide
+
+/-- `benign` is exactly: regular, and not the recorded exception. -/
+theorem benign_iff (s : Sys) (o : Op) :
+    benign s o = true ↔ regular s o = true ∧ lowReassociation s o = false := by
+  simp [benign]
 
 /-- The signer's own number rises with every processed request, forced number or not. -/
 theorem signer_number_increases (s s' : Signer) (m : Signed ReqBody) (ovr : Option Nat)
